@@ -28,7 +28,10 @@ type Anchors struct {
 
 	Teardown          *ssa.Function   // contains dispatch of DISCONNECTED (the event function)
 	TeardownCore      *ssa.Function   // clears the connected flag and waits (== Teardown unless split into a helper)
-	Connect           *ssa.Function   // stores true to Connected
+	Connect           *ssa.Function   // stores true to Connected (or calls the trivial setter that does)
+	FlagSetter        *ssa.Function   // the trivial helper that stores true, when the connect routine delegates that
+	FlagClearer       *ssa.Function   // the trivial helper that stores false, when the teardown delegates that
+	ConnectSet        ssa.Instruction // the instruction in Connect at which the flag becomes true (store or setter call)
 	Members           []*ssa.Function // spawned under Add on WG
 	ConnDispatch      *ssa.Function   // (*Conn).dispatch
 	SetDispatch       *ssa.Function   // (*hSet).dispatch
@@ -224,6 +227,31 @@ func (p *Prog) ResolveAnchors() *Anchors {
 	if a.Teardown == nil {
 		a.miss("teardown function (dispatch of DISCONNECTED)")
 	}
+	// the connect routine may delegate the store to a trivial setter: straight-line, no calls, unexported, called
+	// once - then the routine is that caller and the call is where the flag becomes true
+	if f := a.Connect; f != nil {
+		funcInstrs(f, func(in ssa.Instruction) {
+			if s, ok := in.(*ssa.Store); ok {
+				if fv, _ := fieldOf(s.Addr); fv == a.Connected {
+					a.ConnectSet = in
+				}
+			}
+		})
+		trivial := len(f.Blocks) == 1 && f.Object() != nil && !f.Object().Exported() && !addrTaken(f)
+		funcInstrs(f, func(in ssa.Instruction) {
+			switch in.(type) {
+			case *ssa.Call, *ssa.Go, *ssa.Defer, *ssa.Send, *ssa.MapUpdate:
+				trivial = false
+			}
+		})
+		if sites := p.staticCallers(f); trivial && len(sites) == 1 {
+			if call, ok := sites[0].(*ssa.Call); ok && call.Parent().Package() == cl {
+				a.FlagSetter = f
+				a.Connect = call.Parent()
+				a.ConnectSet = call
+			}
+		}
+	}
 	// the core: the function storing false to the connected flag
 	for _, fn := range p.ModFuncs {
 		if fn.Package() != cl {
@@ -241,6 +269,22 @@ func (p *Prog) ResolveAnchors() *Anchors {
 				}
 			}
 		})
+	}
+	// the teardown may delegate the store to a trivial clearer (straight-line, no calls, unexported, called once)
+	if f := a.TeardownCore; f != nil && f != a.Teardown {
+		trivial := len(f.Blocks) == 1 && f.Object() != nil && !f.Object().Exported() && !addrTaken(f)
+		funcInstrs(f, func(in ssa.Instruction) {
+			switch in.(type) {
+			case *ssa.Call, *ssa.Go, *ssa.Defer, *ssa.Send, *ssa.MapUpdate:
+				trivial = false
+			}
+		})
+		if sites := p.staticCallers(f); trivial && len(sites) == 1 {
+			if call, ok := sites[0].(*ssa.Call); ok && call.Parent().Package() == cl {
+				a.FlagClearer = f
+				a.TeardownCore = call.Parent()
+			}
+		}
 	}
 	if a.TeardownCore == nil {
 		a.TeardownCore = a.Teardown
